@@ -78,7 +78,7 @@ pub const ROOTS: &[&str] = &[
     "6k1/5ppp/8/8/8/8/5PPP/R5K1 w - - 0 1",
     // many moves / capacity
     "R6R/3Q4/1Q4Q1/4Q3/2Q4Q/Q4Q2/pp1Q4/kBNN1KB1 w - - 0 1",
-    "qqqqkqqq/qqqqqqqq/8/8/8/8/QQQQQQQQ/QQQQKQQQ w - - 0 1",
+    "7k/6pp/8/8/8/8/QQQQQQ2/QQQ1K3 w - - 0 1",
     "3Q4/1Q4Q1/4Q3/2Q4R/Q4Q2/3Q4/1Q4Rp/1K1BBNNk w - - 0 1",
     // terminal and near-terminal
     "7k/5Q2/6K1/8/8/8/8/8 b - - 0 1",
@@ -92,8 +92,63 @@ pub const ROOTS: &[&str] = &[
 ];
 
 /// Suite positions that no legal game reaches (the marker could only have arisen with the
-/// side not to move in check); playable, so still useful where only C06-playability matters.
-pub const UNREACHABLE_SUITE: &[&str] = &["8/5bk1/8/2Pp4/8/1K6/8/8 w - d6 0 1", "8/8/1k6/8/2pP4/8/5BK1/8 b - d3 0 1"];
+/// side not to move in check; fifteen queens a side); playable, so still useful where only
+/// C06-playability and C07 matter. Nothing demands that they be accepted.
+pub const UNREACHABLE_SUITE: &[&str] = &["8/5bk1/8/2Pp4/8/1K6/8/8 w - d6 0 1", "8/8/1k6/8/2pP4/8/5BK1/8 b - d3 0 1", "qqqqkqqq/qqqqqqqq/8/8/8/8/QQQQQQQQ/QQQQKQQQ w - - 0 1"];
+
+/// Reachable positions at the material limits: one side has promoted all eight pawns to the
+/// same kind of officer (nine queens, or ten knights / bishops / rooks), or to a mixture; the
+/// other king sits behind a pawn shield so that neither side is in check. Both colours, both
+/// sides to move.
+pub fn material_extremes() -> Vec<Pos> {
+    let mut out = vec![];
+    // squares on files a-c (and d1..d3), none of which attacks h8 or g8 past the shield
+    let pool: [u8; 16] = [8, 16, 24, 32, 40, 48, 56, 1, 9, 17, 25, 33, 41, 49, 57, 2];
+    let mixes: [[P; 8]; 7] = [
+        [P::Queen; 8],
+        [P::Knight; 8],
+        [P::Bishop; 8],
+        [P::Rook; 8],
+        [P::Queen, P::Queen, P::Knight, P::Knight, P::Bishop, P::Bishop, P::Rook, P::Rook],
+        [P::Queen, P::Queen, P::Queen, P::Queen, P::Rook, P::Rook, P::Rook, P::Rook],
+        [P::Knight, P::Knight, P::Knight, P::Knight, P::Bishop, P::Bishop, P::Bishop, P::Bishop],
+    ];
+    for mix in mixes {
+        for base in [true, false] {
+            let mut p = Pos::empty();
+            p.sq[0] = Some((C::White, P::King));
+            p.sq[63] = Some((C::Black, P::King));
+            p.sq[62] = Some((C::Black, P::Rook));
+            p.sq[54] = Some((C::Black, P::Pawn));
+            p.sq[55] = Some((C::Black, P::Pawn));
+            let mut kinds: Vec<P> = mix.to_vec();
+            if base {
+                // the seven original officers as well: sixteen men
+                kinds.extend([P::Knight, P::Knight, P::Bishop, P::Bishop, P::Rook, P::Rook, P::Queen]);
+            } else {
+                // only the original officer(s) of the promoted kind(s)
+                kinds.push(mix[0]);
+            }
+            for (i, k) in kinds.iter().enumerate() {
+                p.sq[pool[i] as usize] = Some((C::White, *k));
+            }
+            p.full = 40;
+            for turn in [C::White, C::Black] {
+                let mut q = p.clone();
+                q.turn = turn;
+                if q.plausible() {
+                    out.push(q.clone());
+                }
+                let mut m = q.mirror();
+                m.full = 41;
+                if m.plausible() {
+                    out.push(m);
+                }
+            }
+        }
+    }
+    out
+}
 
 #[derive(Clone, Debug, Serialize, Deserialize, PartialEq)]
 pub struct Synth {
@@ -749,8 +804,15 @@ pub fn clocks_strategy(max_len: usize) -> impl Strategy<Value = (u16, u16)> {
     )
 }
 
+/// the same with the whole range of half-move clocks a FEN can carry (the clock keeps counting
+/// past 100; storage-width boundaries 255/256 get extra weight)
+pub fn clocks_strategy_wide(max_len: usize) -> impl Strategy<Value = (u16, u16)> {
+    let hi = 9999u16.saturating_sub(max_len as u16 + 2);
+    (clocks_strategy(max_len), prop_oneof![9 => Just(None), 1 => (250u16..=260).prop_map(Some), 1 => (0u16..=hi).prop_map(Some), 1 => ((hi - 30)..=hi).prop_map(Some)]).prop_map(|((h, f), wide)| (wide.unwrap_or(h), f))
+}
+
 pub fn play_strategy(max_len: usize, max_pieces: usize) -> impl Strategy<Value = PlayCase> {
-    (root_strategy(max_pieces), clocks_strategy(max_len), choices_strategy(max_len), any::<u64>())
+    (root_strategy(max_pieces), clocks_strategy_wide(max_len), choices_strategy(max_len), any::<u64>())
         .prop_map(|(root, (half, full), choices, aux)| PlayCase { root, half, full, choices, aux })
 }
 
